@@ -159,6 +159,21 @@ impl Case {
         }
         s
     }
+    fn coq_lines(&self) -> String {
+        match &self.base {
+            Base::System(lines) => clist(lines.iter().map(|l| clist(l.iter().map(|t| match t {
+                Tok::Num(z) => format!("TNum {}", cz(*z)),
+                Tok::Bad(_) => "TBad".to_string(),
+            })))),
+            Base::User => "[]".to_string(),
+        }
+    }
+    fn coq_recs(&self) -> String {
+        let c = self.coq();
+        // (mkInput <base> <recs>)
+        let i = c.rfind(" [mkRec").or_else(|| c.rfind(" []")).unwrap();
+        c[i + 1..c.len() - 1].to_string()
+    }
     fn coq(&self) -> String {
         let base = match &self.base {
             Base::User => format!("(UserDic {} {} {})", cz(SYS_NL), cz(SYS_NR), cz(SYS_WORDS as i64)),
@@ -218,9 +233,27 @@ struct Built {
     second_bytes: Vec<u8>,
 }
 
+/// header settings applied to every builder of the current case (DictBuilder::set_description / set_compile_time)
+#[derive(Clone, Debug, Default)]
+struct Hdr {
+    descr: Option<String>,
+    time: Option<u64>,
+}
+
 struct Env {
     dir: std::path::PathBuf,
     sys_bytes: Vec<u8>,
+    hdr: std::cell::RefCell<Hdr>,
+}
+
+fn apply_hdr<D: DictionaryAccess>(env: &Env, b: &mut DictBuilder<D>) {
+    let h = env.hdr.borrow();
+    if let Some(d) = &h.descr {
+        b.set_description(d.clone());
+    }
+    if let Some(t) = h.time {
+        b.set_compile_time(std::time::UNIX_EPOCH + std::time::Duration::from_secs(t));
+    }
 }
 
 fn sys_matrix_text() -> String {
@@ -309,6 +342,7 @@ fn session(env: &Env, matrix: Option<&[u8]>, lexicon: &[u8], attempts: &[Attempt
     match matrix {
         Some(m) => {
             let mut b = DictBuilder::new_system();
+            apply_hdr(env, &mut b);
             let r = catch(|| {
                 b.read_conn(m).map_err(|e| format!("read_conn: {}", e))?;
                 b.read_lexicon(lexicon).map_err(|e| format!("read_lexicon: {}", e))?;
@@ -325,6 +359,7 @@ fn session(env: &Env, matrix: Option<&[u8]>, lexicon: &[u8], attempts: &[Attempt
         None => {
             let sys = load_system(env);
             let mut b = DictBuilder::new_user(&sys);
+            apply_hdr(env, &mut b);
             let r = catch(|| {
                 b.read_lexicon(lexicon).map_err(|e| format!("read_lexicon: {}", e))?;
                 b.resolve().map_err(|e| format!("resolve: {}", e))?;
@@ -338,6 +373,95 @@ fn session(env: &Env, matrix: Option<&[u8]>, lexicon: &[u8], attempts: &[Attempt
             }
         }
     }
+}
+
+/// one call on a builder, in histories of arbitrary order
+#[derive(Clone, Debug)]
+enum Op {
+    Conn(Vec<u8>),
+    Lex(Vec<u8>),
+    Resolve,
+    Compile(Attempt),
+}
+
+fn ops_on<D: DictionaryAccess>(b: &mut DictBuilder<D>, ops: &[Op]) -> Vec<Attempted> {
+    let mut out = vec![];
+    for op in ops {
+        let st = |r: Result<Result<(), String>, String>| match r {
+            Ok(Ok(())) => Attempted { status: "SOk", msg: String::new(), bytes: vec![] },
+            Ok(Err(e)) => Attempted { status: "SErr", msg: e, bytes: vec![] },
+            Err(p) => Attempted { status: "SPanic", msg: p, bytes: vec![] },
+        };
+        out.push(match op {
+            Op::Conn(m) => st(catch(|| b.read_conn(&m[..]).map_err(|e| format!("read_conn: {}", e)))),
+            Op::Lex(l) => st(catch(|| b.read_lexicon(&l[..]).map(|_| ()).map_err(|e| format!("read_lexicon: {}", e)))),
+            Op::Resolve => st(catch(|| b.resolve().map(|_| ()).map_err(|e| format!("resolve: {}", e)))),
+            Op::Compile(a) => attempts_on(b, &[*a]).pop().unwrap(),
+        });
+    }
+    out
+}
+
+/// any history of calls on ONE builder; every call is carried out whatever the earlier ones returned
+fn run_history(env: &Env, user: bool, ops: &[Op]) -> Vec<Attempted> {
+    if user {
+        let sys = load_system(env);
+        let mut b = DictBuilder::new_user(&sys);
+        apply_hdr(env, &mut b);
+        ops_on(&mut b, ops)
+    } else {
+        let mut b = DictBuilder::new_system();
+        apply_hdr(env, &mut b);
+        ops_on(&mut b, ops)
+    }
+}
+
+/// independent reading of a compiled dictionary through the public API: every indexed word's connection ids lie inside the
+/// matrix it will be used with, every dictionary-form / split / word-structure reference names an existing word
+fn audit_dictionary(env: &Env, user: bool, bytes: &[u8]) -> Option<String> {
+    use sudachi::dic::word_id::WordId;
+    let cfg = config(env);
+    let r = catch(|| {
+        let mut data = SudachiDicData::new(Storage::Owned(if user { env.sys_bytes.clone() } else { bytes.to_vec() }));
+        if user {
+            data.add_user(Storage::Owned(bytes.to_vec()));
+        }
+        JapaneseDictionary::from_cfg_storage(&cfg, data)
+    });
+    let dict = match r {
+        Ok(Ok(d)) => d,
+        Ok(Err(e)) => return Some(format!("compiled dictionary does not load: {}", e)),
+        Err(p) => return Some(format!("loading the compiled dictionary panicked: {}", p)),
+    };
+    let (nl, nr) = (dict.grammar().conn_matrix().num_left() as i64, dict.grammar().conn_matrix().num_right() as i64);
+    let total = dict.lexicon().size() as usize;
+    let nsys = if user { SYS_WORDS } else { total };
+    let nuser = total - nsys;
+    let exists = |w: WordId| -> bool { (w.dic() == 0 && (w.word() as usize) < nsys) || (w.dic() == 1 && (w.word() as usize) < nuser) };
+    let (dic, n) = if user { (1u8, nuser) } else { (0u8, nsys) };
+    for i in 0..n {
+        let wid = WordId::new(dic, i as u32);
+        let (l, r, _c) = dict.lexicon().get_word_param(wid);
+        if l >= 0 && !((l as i64) < nr && r >= 0 && (r as i64) < nl) {
+            return Some(format!("word {} of the compiled dictionary has left_id {} / right_id {} outside the {}x{} matrix it is used with", i, l, r, nl, nr));
+        }
+        let info = match catch(|| dict.lexicon().get_word_info(wid)) {
+            Ok(Ok(x)) => x,
+            Ok(Err(e)) => return Some(format!("word info {} of the compiled dictionary cannot be read: {}", i, e)),
+            Err(p) => return Some(format!("reading word info {} of the compiled dictionary panicked: {}", i, p)),
+        };
+        for w in info.a_unit_split().iter().chain(info.b_unit_split()).chain(info.word_structure()) {
+            if !exists(*w) {
+                return Some(format!("word {} of the compiled dictionary refers to {:?}, which does not exist ({} system / {} user words)", i, w, nsys, nuser));
+            }
+        }
+        let df = info.dictionary_form_word_id();
+        // a user entry's dictionary form is resolved inside the user lexicon by the reader (recorded finding): not audited here
+        if !user && df >= 0 && df as usize >= nsys {
+            return Some(format!("word {} of the compiled dictionary has dictionary form {}, there are {} words", i, df, nsys));
+        }
+    }
+    None
 }
 
 /// two dictionaries are the same up to the creation time stored in the header (bytes 8..16)
@@ -492,7 +616,13 @@ fn run_texts(sink: &mut Sink, env: &Env, case: Option<&Case>, matrix: Option<Str
     sink.tag(if user { "user_dictionary" } else { "system_dictionary" });
     let mismatch = case.map(|c| c.recs.iter().any(|r| !r.splits_concat)).unwrap_or(false);
     let d = match case {
-        Some(c) => desc(c, &matrix, &lexicon, shape),
+        Some(c) => {
+            let mut dd = desc(c, &matrix, &lexicon, shape);
+            let h = env.hdr.borrow();
+            dd["descr"] = json!(h.descr);
+            dd["time"] = json!(h.time);
+            dd
+        }
         None => json!({"kind": "c06-raw", "shape": shape, "matrix": matrix, "lexicon": lexicon, "known_class": ""}),
     };
     if verbose {
@@ -506,9 +636,20 @@ fn run_texts(sink: &mut Sink, env: &Env, case: Option<&Case>, matrix: Option<Str
         Some(c) => {
             // the known finding is excluded from the predicate only for the analysis clause; everything else is still compared
             let analyses = lr.ok || (mismatch && lr.msg.contains("analysis"));
+            let h = env.hdr.borrow().clone();
+            let hdr_bytes: Vec<u8> = b.bytes.iter().take(272).cloned().collect();
+            let time = match h.time {
+                Some(t) => t,
+                // not set: whatever the builder took from the clock
+                None => if hdr_bytes.len() >= 16 { u64::from_le_bytes(hdr_bytes[8..16].try_into().unwrap()) } else { 0 },
+            };
             let term = format!(
-                "check_build {} {} {} {} ({}, {}) {} {}",
+                "check_build_h {} {} {} {} {} {} {} {} ({}, {}) {} {}",
                 c.coq(),
+                cbool(user),
+                cn(time),
+                ctext(h.descr.as_deref().unwrap_or("")),
+                cbytes(&hdr_bytes),
                 b.status,
                 b.second_status,
                 cbool(b.second_same),
@@ -529,6 +670,467 @@ fn run_texts(sink: &mut Sink, env: &Env, case: Option<&Case>, matrix: Option<Str
     }
     if let Some(what) = check_second(env, user, &b, &pr) {
         sink.fail(id, &what, "");
+    }
+    if b.status == "SOk" {
+        if let Some(what) = check_header(env, &b.bytes) {
+            sink.fail(id, &what, "");
+        }
+    }
+}
+
+/// the header of a compiled dictionary read back through Header::parse: description and time are the ones that were set
+fn check_header(env: &Env, bytes: &[u8]) -> Option<String> {
+    let h = env.hdr.borrow();
+    match sudachi::dic::header::Header::parse(bytes) {
+        Err(e) => Some(format!("the header of the compiled dictionary cannot be parsed: {:?}", e)),
+        Ok(p) => {
+            if let Some(d) = &h.descr {
+                if !d.contains('\0') && &p.description != d {
+                    return Some(format!("description set on the builder ({} bytes, {} characters) does not come back from the header: got {} bytes", d.len(), d.chars().count(), p.description.len()));
+                }
+            }
+            if let Some(t) = h.time {
+                if p.create_time != t {
+                    return Some(format!("compile time {} set on the builder, header says {}", t, p.create_time));
+                }
+            }
+            None
+        }
+    }
+}
+
+/// descriptions around the 256-byte field: ASCII and multi-byte text at 255 / 256 / 257 bytes and characters
+fn gen_hdr(rng: &mut Rng) -> Hdr {
+    let rep = |s: &str, n: usize| s.repeat(n);
+    let descr = match rng.below(14) {
+        0 => None,
+        1 => Some(String::new()),
+        2 => Some(rep("d", *rng.pick(&[1usize, 100, 255, 256, 257, 300]))),
+        3 => Some(rep("辞", *rng.pick(&[1usize, 85, 86, 100, 256, 257]))),
+        4 => Some(rep("é", *rng.pick(&[127usize, 128, 129, 256]))),
+        5 => Some(rep("𠮷", *rng.pick(&[63usize, 64, 65, 256]))),
+        6 | 7 => {
+            // mixed text with a chosen byte length
+            let total = *rng.pick(&[254usize, 255, 256, 257, 258, 259]);
+            let k = rng.below(80) as usize;
+            let mut s = rep("書", k.min(total / 3));
+            while s.len() < total {
+                s.push('x');
+            }
+            Some(s)
+        }
+        8 => Some("system dictionary 2026".to_string()),
+        9 => Some("ab\u{0}cd".to_string()),
+        10 => Some(rep("辞", 85) + "x"),
+        11 => Some(rep("辞", 85) + "é"),
+        12 => Some("x".to_string() + &rep("辞", 85)),
+        _ => Some(rep("あ", 200)),
+    };
+    let time = match rng.below(5) {
+        0 => Some(0),
+        1 => Some(1),
+        2 => Some(4294967296 + rng.below(1000)),
+        3 => Some(1700000000 + rng.below(100000)),
+        _ => None,
+    };
+    Hdr { descr, time }
+}
+
+// ---------------------------------------------------------------- call histories
+
+/// one call of a modelled history: the abstract form (for the model) and the text handed to the implementation
+#[derive(Clone, Debug)]
+enum HOp {
+    Conn(Vec<Vec<Tok>>, String),
+    Lex(Vec<Rec>, String),
+    Resolve,
+    Compile,
+}
+
+fn hop_name(o: &HOp) -> &'static str {
+    match o {
+        HOp::Conn(..) => "read_conn",
+        HOp::Lex(..) => "read_lexicon",
+        HOp::Resolve => "resolve",
+        HOp::Compile => "compile",
+    }
+}
+
+fn hops_json(ops: &[HOp]) -> Value {
+    json!(ops
+        .iter()
+        .map(|o| match o {
+            HOp::Conn(_, t) => json!({"op": "read_conn", "text": t}),
+            HOp::Lex(_, t) => json!({"op": "read_lexicon", "text": t}),
+            HOp::Resolve => json!({"op": "resolve"}),
+            HOp::Compile => json!({"op": "compile"}),
+        })
+        .collect::<Vec<_>>())
+}
+
+struct CallObs {
+    status: &'static str,
+    msg: String,
+    dims: (i64, i64),
+    cells: Vec<(i64, i64, i64)>,
+    fine: bool,
+    problem: String,
+}
+
+/// run a history on the implementation; every successful compile is audited, loaded and used for analysis
+fn observe_history(env: &Env, user: bool, ops: &[Op], probes: &[String]) -> Vec<CallObs> {
+    let rs = run_history(env, user, ops);
+    ops.iter()
+        .zip(rs.into_iter())
+        .map(|(o, r)| {
+            let mut ob = CallObs { status: r.status, msg: r.msg, dims: (0, 0), cells: vec![], fine: true, problem: String::new() };
+            if let (Op::Compile(_), "SOk") = (o, r.status) {
+                if !r.bytes.is_empty() {
+                    if let Some(a) = audit_dictionary(env, user, &r.bytes) {
+                        ob.fine = false;
+                        ob.problem = a;
+                    }
+                    let lr = load_and_analyse(env, user, &r.bytes, probes);
+                    ob.dims = lr.dims;
+                    ob.cells = lr.cells;
+                    if !lr.ok && ob.fine {
+                        ob.fine = false;
+                        ob.problem = lr.msg;
+                    }
+                    if ob.fine {
+                        if let Some(h) = check_header(env, &r.bytes) {
+                            ob.fine = false;
+                            ob.problem = h;
+                        }
+                    }
+                }
+            }
+            ob
+        })
+        .collect()
+}
+
+fn emit_history(sink: &mut Sink, env: &Env, user: bool, hops: &[HOp], shape: &str, verbose: bool) {
+    let ops: Vec<Op> = hops
+        .iter()
+        .map(|o| match o {
+            HOp::Conn(_, t) => Op::Conn(t.clone().into_bytes()),
+            HOp::Lex(_, t) => Op::Lex(t.clone().into_bytes()),
+            HOp::Resolve => Op::Resolve,
+            HOp::Compile => Op::Compile(Attempt::Good),
+        })
+        .collect();
+    let mut probes: Vec<String> = vec![];
+    for o in hops {
+        if let HOp::Lex(recs, _) = o {
+            probes.push(recs.iter().take(10).map(|r| r.surface.clone()).collect::<String>());
+        }
+    }
+    probes.push("x1。".to_string());
+    let obs = observe_history(env, user, &ops, &probes);
+    let coq_ops = clist(hops.iter().map(|o| match o {
+        HOp::Conn(lines, _) => format!("OConn {}", Case { base: Base::System(lines.clone()), recs: vec![] }.coq_lines()),
+        HOp::Lex(recs, _) => format!("OLex {}", Case { base: Base::User, recs: recs.clone() }.coq_recs()),
+        HOp::Resolve => "OResolve".to_string(),
+        HOp::Compile => "OCompile".to_string(),
+    }));
+    let coq_obs = clist(obs.iter().map(|o| {
+        format!(
+            "({}, ({}, {}), {}, {})",
+            o.status,
+            cz(o.dims.0),
+            cz(o.dims.1),
+            clist(o.cells.iter().map(|(l, r, v)| format!("({}, {}, {})", cz(*l), cz(*r), cz(*v)))),
+            cbool(o.fine)
+        )
+    }));
+    let term = format!(
+        "check_history {} {} {} {} {} {} {}",
+        cbool(user), cz(SYS_NL), cz(SYS_NR), cz(SYS_WORDS as i64), ctext(env.hdr.borrow().descr.as_deref().unwrap_or("")), coq_ops, coq_obs
+    );
+    sink.tag(&format!("history:{}", shape));
+    sink.tag_n("history_calls", hops.len() as u64);
+    let d = json!({"kind": "c06-history", "shape": shape, "user": user, "ops": hops_json(hops), "known_class": "",
+                   "descr": env.hdr.borrow().descr, "time": env.hdr.borrow().time});
+    let id = sink.case(term, d, true);
+    let mut conn_ok = false;
+    for (i, (h, o)) in hops.iter().zip(obs.iter()).enumerate() {
+        if verbose {
+            println!("  call {} {} -> {} {}{}", i + 1, hop_name(h), o.status, o.msg, if o.fine { String::new() } else { format!("  [{}]", o.problem) });
+        }
+        if o.status == "SPanic" {
+            sink.fail(id, &format!("call {} ({}) of the history {} panicked: {}", i + 1, hop_name(h), history_names(hops), o.msg), "");
+        }
+        if let HOp::Compile = h {
+            if o.status == "SOk" && !o.fine && (user || conn_ok) {
+                sink.fail(id, &format!("call {} (compile) of the history {} reported success, but {}", i + 1, history_names(hops), o.problem), "");
+            }
+        }
+        if let HOp::Conn(..) = h {
+            conn_ok = conn_ok || o.status == "SOk";
+        }
+    }
+}
+
+fn history_names(hops: &[HOp]) -> String {
+    format!("[{}]", hops.iter().map(hop_name).collect::<Vec<_>>().join(", "))
+}
+
+/// inverse of the renderers of this file (matrix_text / lexicon_text), so that a replay can hand the abstract calls to the model
+fn parse_back_matrix(t: &str) -> Vec<Vec<Tok>> {
+    t.split('\n')
+        .map(|l| l.split_whitespace().map(|w| match w.parse::<i64>() { Ok(z) if !w.starts_with('+') => Tok::Num(z), _ => Tok::Bad(w.to_string()) }).collect())
+        .collect::<Vec<Vec<Tok>>>()
+        .into_iter()
+        .rev()
+        .skip_while(|l: &Vec<Tok>| l.is_empty())
+        .collect::<Vec<_>>()
+        .into_iter()
+        .rev()
+        .collect()
+}
+fn parse_back_lexicon(t: &str) -> Vec<Rec> {
+    let num = |s: &str| match s.parse::<i64>() { Ok(z) if !s.starts_with('+') => Num::Lit(z), _ => Num::Bad(s.to_string()) };
+    let wid = |s: &str| -> Wid {
+        let (u, d) = if let Some(r) = s.strip_prefix('U') { (true, r) } else { (false, s) };
+        match d.parse::<i64>() { Ok(z) if !d.is_empty() && d.chars().all(|c| c.is_ascii_digit()) => Wid::Lit(u, z), _ => Wid::Bad(s.to_string()) }
+    };
+    let wids = |s: &str| -> Vec<Wid> { if s == "*" || s.is_empty() { vec![] } else { s.split('/').map(wid).collect() } };
+    t.lines().filter(|l| !l.is_empty()).map(|l| {
+        let c: Vec<&str> = l.split(',').collect();
+        let g = |i: usize| -> &str { c.get(i).copied().unwrap_or("") };
+        let pos = POS.iter().position(|p| p.split(',').collect::<Vec<_>>() == c.get(5..11).map(|x| x.to_vec()).unwrap_or_default()).unwrap_or(0);
+        Rec {
+            ncols: c.len(),
+            strings: if g(11).len() > 32767 { StrKind::TooLong } else if g(12).contains("\\u{110000}") { StrKind::BadEscape } else { StrKind::Ok },
+            surface: g(0).to_string(),
+            left: num(g(1)),
+            right: num(g(2)),
+            cost: num(g(3)),
+            pos,
+            dic_form: if g(13) == "*" || c.len() <= 13 { None } else { Some(wid(g(13))) },
+            mode: match g(14) { "A" => Some(0), "B" => Some(1), "C" => Some(2), _ => None },
+            split_a: wids(g(15)),
+            split_b: wids(g(16)),
+            wstruct: wids(g(17)),
+            syn_ok: c.len() < 19 || g(18) == "1/22",
+            has_syn: c.len() >= 19,
+            splits_concat: true,
+        }
+    }).collect()
+}
+
+fn replay_history(sink: &mut Sink, env: &Env, c: &Value) {
+    let user = c["user"].as_bool().unwrap_or(false);
+    if c["shape"] == "rust_only" {
+        // implementation only: the texts of the calls are replayed in order
+        let mut ops = vec![];
+        for o in c["ops"].as_array().unwrap() {
+            ops.push(match o["op"].as_str().unwrap() {
+                "read_conn" => Op::Conn(o["text"].as_str().unwrap().as_bytes().to_vec()),
+                "read_lexicon" => Op::Lex(o["text"].as_str().unwrap().as_bytes().to_vec()),
+                "resolve" => Op::Resolve,
+                _ => Op::Compile(Attempt::Good),
+            });
+        }
+        let obs = observe_history(env, user, &ops, &["ああいいううええ".to_string()]);
+        println!("history on one {} builder (implementation only; failing sinks of the original run are replayed as good sinks):", if user { "user-dictionary" } else { "system-dictionary" });
+        let id = sink.case_rust_only(json!({"kind": "c06-history", "shape": "replay"}), true);
+        let mut conn_ok = false;
+        for (i, (o, ob)) in ops.iter().zip(obs.iter()).enumerate() {
+            let (name, text) = match o {
+                Op::Conn(t) => ("read_conn", String::from_utf8_lossy(t).to_string()),
+                Op::Lex(t) => ("read_lexicon", String::from_utf8_lossy(t).to_string()),
+                Op::Resolve => ("resolve", String::new()),
+                Op::Compile(_) => ("compile", String::new()),
+            };
+            println!("  call {} {} {:?} -> {} {}", i + 1, name, text.chars().take(200).collect::<String>(), ob.status, ob.msg);
+            if ob.status == "SPanic" {
+                sink.fail(id, &format!("call {} ({}) panicked: {}", i + 1, name, ob.msg), "");
+            }
+            if name == "compile" && ob.status == "SOk" && !ob.fine && (user || conn_ok) {
+                sink.fail(id, &format!("call {} (compile) reported success, but {}", i + 1, ob.problem), "");
+            }
+            if name == "read_conn" {
+                conn_ok = conn_ok || ob.status == "SOk";
+            }
+        }
+        return;
+    }
+    let mut hops = vec![];
+    for o in c["ops"].as_array().unwrap() {
+        let text = o["text"].as_str().unwrap_or("").to_string();
+        hops.push(match o["op"].as_str().unwrap() {
+            "read_conn" => HOp::Conn(parse_back_matrix(&text), text),
+            "read_lexicon" => HOp::Lex(parse_back_lexicon(&text), text),
+            "resolve" => HOp::Resolve,
+            _ => HOp::Compile,
+        });
+    }
+    println!("history on one {} builder:", if user { "user-dictionary" } else { "system-dictionary" });
+    for (i, h) in hops.iter().enumerate() {
+        match h {
+            HOp::Conn(_, t) | HOp::Lex(_, t) => println!("  call {} {} {:?}", i + 1, hop_name(h), t.chars().take(300).collect::<String>()),
+            _ => println!("  call {} {}", i + 1, hop_name(h)),
+        }
+    }
+    println!("implementation:");
+    emit_history(sink, env, user, &hops, "replay", true);
+}
+
+/// a chunk of simple rows (no split references) with ids valid for an nl x nr matrix, surfaces unique per chunk number
+fn chunk(k: usize, n: usize, nl: i64, nr: i64, rng: &mut Rng) -> Vec<Rec> {
+    (0..n).map(|i| {
+        let mut r = good_rec(k * 15 + i, nl, nr, rng);
+        if matches!(r.left, Num::Lit(x) if x < 0) && i == 0 {
+            r.left = Num::Lit(0);
+            r.right = Num::Lit(0);
+        }
+        r
+    }).collect()
+}
+
+fn lex_op(recs: Vec<Rec>) -> HOp {
+    let t = Case { base: Base::User, recs: recs.clone() }.lexicon_text();
+    HOp::Lex(recs, t)
+}
+fn conn_op(lines: Vec<Vec<Tok>>, rng: &mut Rng) -> HOp {
+    let t = Case { base: Base::System(lines.clone()), recs: vec![] }.matrix_text(rng).unwrap();
+    HOp::Conn(lines, t)
+}
+
+/// random call histories: matrices of two sizes (the second possibly smaller, possibly failing at a cost line or at the
+/// header), lexicon chunks (valid for the first matrix; some with ids at the edge of the second, dangling references, a
+/// malformed row in the middle), resolve and compile anywhere and repeatedly
+fn gen_history(rng: &mut Rng, user: bool) -> (Vec<HOp>, String) {
+    let (nl1, nr1) = if user { (SYS_NL, SYS_NR) } else { (rng.range(2, 6), rng.range(2, 6)) };
+    let (nl2, nr2) = (rng.range(1, nl1), rng.range(1, nr1));
+    let mut ops: Vec<HOp> = vec![];
+    let mut tags: Vec<&str> = vec![];
+    let mut conn_failed = false;
+    let mut chunk_no = 0;
+    let len = 3 + rng.below(6);
+    for step in 0..len {
+        let what = if step + 1 == len { 9 } else { rng.below(12) };
+        match what {
+            0 | 1 if !user && !conn_failed => ops.push(conn_op(good_matrix(nl1, nr1, rng), rng)),
+            2 if !user && !conn_failed => {
+                ops.push(conn_op(good_matrix(nl2, nr2, rng), rng));
+                tags.push("smaller_matrix");
+            }
+            3 if !user && !conn_failed => {
+                // fails at a cost line after the header was taken
+                let mut m = good_matrix(nl2, nr2, rng);
+                let at = 1 + rng.below(m.len() as u64) as usize;
+                m.insert(at.min(m.len()), vec![Tok::Num(0), Tok::Bad("x".into()), Tok::Num(1)]);
+                ops.push(conn_op(m, rng));
+                conn_failed = true;
+                tags.push("matrix_fails_at_a_line");
+            }
+            4 if !user && !conn_failed => {
+                ops.push(conn_op(vec![vec![Tok::Num(nl2), Tok::Bad("q".into())]], rng));
+                conn_failed = true;
+                tags.push("matrix_fails_at_the_header");
+            }
+            5 | 6 => {
+                ops.push(lex_op(chunk(chunk_no, 1 + rng.below(4) as usize, nl1, nr1, rng)));
+                chunk_no += 1;
+            }
+            7 => {
+                // a chunk with one questionable row
+                let mut c = chunk(chunk_no, 1 + rng.below(3) as usize, nl1, nr1, rng);
+                chunk_no += 1;
+                let i = rng.below(c.len() as u64) as usize;
+                match rng.below(5) {
+                    0 => {
+                        c[i].left = Num::Lit(*rng.pick(&[nr2, nr1 - 1, nr1]));
+                        c[i].right = Num::Lit(0);
+                        tags.push("row_id_at_matrix_edge");
+                    }
+                    1 => {
+                        c[i].left = Num::Lit(0);
+                        c[i].right = Num::Lit(*rng.pick(&[nl2, nl1 - 1, nl1, -1]));
+                        tags.push("row_id_at_matrix_edge");
+                    }
+                    2 => {
+                        c[i].wstruct = vec![Wid::Lit(user, *rng.pick(&[0i64, 40, 2]))];
+                        tags.push("row_reference");
+                    }
+                    3 => {
+                        c[i].ncols = 5;
+                        tags.push("row_malformed_in_the_middle");
+                    }
+                    _ => {
+                        c[i].dic_form = if user { None } else { Some(Wid::Lit(false, *rng.pick(&[0i64, 30]))) };
+                        tags.push("row_reference");
+                    }
+                }
+                ops.push(lex_op(c));
+            }
+            8 => ops.push(HOp::Resolve),
+            _ => ops.push(HOp::Compile),
+        }
+    }
+    tags.sort();
+    tags.dedup();
+    (ops, if tags.is_empty() { "plain".to_string() } else { tags.join("+") })
+}
+
+/// implementation-only histories: what the model does not cover (inline split units, failing sinks between the calls, a
+/// matrix read after a failed one, a matrix on a user builder, damaged bytes); the audit is the oracle
+fn rust_only_history(sink: &mut Sink, env: &Env, rng: &mut Rng) {
+    let user = rng.chance(1, 3);
+    let (nl, nr) = if user { (SYS_NL, SYS_NR) } else { (rng.range(2, 5), rng.range(2, 5)) };
+    let row = |s: &str, l: i64, r: i64, tail: &str| format!("{},{},{},100,{},{},ヨミ,{},*,{}\n", s, l, r, s, POS[0], s, tail);
+    let inline = format!("C,\"ああ,{},ヨミ/いい,{},ヨミ\",*,*", POS[0], POS[0]);
+    let mtext = |nl: i64, nr: i64, rng: &mut Rng| Case { base: Base::System(good_matrix(nl, nr, rng)), recs: vec![] }.matrix_text(rng).unwrap();
+    let mut ops: Vec<Op> = vec![];
+    let mut names: Vec<String> = vec![];
+    let len = 3 + rng.below(7);
+    for step in 0..len {
+        let what = if step + 1 == len { 20 } else { rng.below(16) };
+        let (o, n): (Op, &str) = match what {
+            0 | 1 => (Op::Conn(mtext(nl, nr, rng).into_bytes()), "read_conn"),
+            2 => (Op::Conn(mtext(rng.range(1, nl), rng.range(1, nr), rng).into_bytes()), "read_conn(smaller)"),
+            3 => (Op::Conn(mtext(nl + 3, nr + 3, rng).into_bytes()), "read_conn(bigger)"),
+            4 => (Op::Conn(damage(&mtext(nl, nr, rng), rng)), "read_conn(damaged)"),
+            5 => (Op::Lex(format!("{}{}", row("ああ", 0, 0, "A,*,*,*"), row("いい", 0, 0, "A,*,*,*")).into_bytes()), "read_lexicon(base)"),
+            6 => (Op::Lex(row("ああいい", 0, 0, &inline).into_bytes()), "read_lexicon(inline splits)"),
+            7 => (Op::Lex(row("うう", nr - 1, nl - 1, "A,*,*,*").into_bytes()), "read_lexicon(edge ids)"),
+            8 => (Op::Lex(row("ええ", nr + 2, nl + 2, "A,*,*,*").into_bytes()), "read_lexicon(ids for the bigger matrix)"),
+            9 => (Op::Lex(damage(&format!("{}{}", row("おお", 0, 0, "A,*,*,*"), row("かか", 0, 0, "A,*,*,*")), rng)), "read_lexicon(damaged)"),
+            10 | 11 => (Op::Resolve, "resolve"),
+            12 => (Op::Compile(Attempt::Fail(rng.below(900) as usize)), "compile(failing sink)"),
+            13 => (Op::Compile(Attempt::OneByte), "compile(one byte per call)"),
+            _ => (Op::Compile(Attempt::Good), "compile"),
+        };
+        ops.push(o);
+        names.push(n.to_string());
+    }
+    let obs = observe_history(env, user, &ops, &["ああいいううええ".to_string()]);
+    sink.tag(if user { "history_rust_only:user" } else { "history_rust_only:system" });
+    sink.tag_n("history_calls", ops.len() as u64);
+    let jops: Vec<Value> = ops.iter().map(|o| match o {
+        Op::Conn(t) => json!({"op": "read_conn", "text": String::from_utf8_lossy(t)}),
+        Op::Lex(t) => json!({"op": "read_lexicon", "text": String::from_utf8_lossy(t)}),
+        Op::Resolve => json!({"op": "resolve"}),
+        Op::Compile(_) => json!({"op": "compile"}),
+    }).collect();
+    let id = sink.case_rust_only(json!({"kind": "c06-history", "shape": "rust_only", "user": user, "ops": jops, "known_class": ""}), true);
+    let mut conn_ok = false;
+    for (i, ((o, ob), n)) in ops.iter().zip(obs.iter()).zip(names.iter()).enumerate() {
+        if ob.status == "SPanic" {
+            sink.fail(id, &format!("call {} ({}) of the history [{}] panicked: {}", i + 1, n, names.join(", "), ob.msg), "");
+        }
+        if let Op::Compile(a) = o {
+            let sink_ok = !matches!(a, Attempt::Fail(_));
+            if sink_ok && ob.status == "SOk" && !ob.fine && (user || conn_ok) {
+                sink.fail(id, &format!("call {} ({}) of the history [{}] reported success, but {}", i + 1, n, names.join(", "), ob.problem), "");
+            }
+        }
+        if let Op::Conn(_) = o {
+            conn_ok = conn_ok || ob.status == "SOk";
+        }
     }
 }
 
@@ -903,6 +1505,8 @@ fn fault_enumeration(sink: &mut Sink, env: &Env, rng: &mut Rng, case: &Case, ste
         clist(rows.iter().map(|r| format!("({}, {}, {}, {})", cz(r.k as i64), r.first, r.retry, cbool(r.retry_same_as_fresh))))
     );
     let mut d = desc(case, &matrix, &lexicon, "fault_enumeration");
+    d["descr"] = json!(env.hdr.borrow().descr);
+    d["time"] = json!(env.hdr.borrow().time);
     d["total_bytes"] = json!(total);
     d["matrix_offset"] = json!(moff);
     let id = sink.case(term, d, true);
@@ -970,13 +1574,13 @@ fn run_raw(sink: &mut Sink, env: &Env, matrix: Option<Vec<u8>>, lexicon: Vec<u8>
 }
 
 pub fn run(args: &Args) {
-    let mut sink = Sink::new("C06", &args.out, &["Model.GuardLang", "Model.Params", "Model.Build"], args.seed, &args.tier);
+    let mut sink = Sink::new("C06", &args.out, &["Model.GuardLang", "Model.Params", "Model.Build", "Model.BuildHistory"], args.seed, &args.tier);
     sink.shard_size = 60;
     sink.rule("system dictionaries (matrix text nl x nr in 0..6, square and non-square, blank lines / tabs / missing cells) and user dictionaries (against a 4x3 system dictionary) with 1..14 rows incl. compounds with split / word-structure references; structured stream = valid input with exactly one damaged aspect (row arity, left/right/cost from the boundary grid, over-long string / bad escape, dangling or malformed references, array length 127/128, mode, synonyms, empty surface; matrix: empty text, header arity / sign / non-numeric, coordinates at and beyond the dimension, negative, wrong arity); malformed stream = byte-level damage (truncation, quotes, invalid UTF-8, swaps); every case compiles twice on one builder (second outcome and bytes must equal the first) after resolving twice; fault enumeration = sink accepting exactly k bytes for every k (quick: every k of small dictionaries), each followed by a retry on the same builder into a good sink (Err or the bytes of a fresh build), plus longer histories [fail, fail, one byte per call, good]; non-trivial = compilation failed or more than one row; distinct by generated Coq term");
     let dir = args.work.join("c06_res");
     std::fs::create_dir_all(&dir).unwrap();
     std::fs::copy(format!("{}/sudachi/tests/resources/char.def", repo()), dir.join("char.def")).unwrap();
-    let mut env = Env { dir, sys_bytes: vec![] };
+    let mut env = Env { dir, sys_bytes: vec![], hdr: Default::default() };
     {
         let mut b = DictBuilder::new_system();
         b.read_conn(sys_matrix_text().as_bytes()).expect("sys matrix");
@@ -996,6 +1600,12 @@ pub fn run(args: &Args) {
             (c["matrix"].as_str().map(|s| s.as_bytes().to_vec()), c["lexicon"].as_str().unwrap_or("").as_bytes().to_vec())
         };
         println!("replaying C06 case (shape {})", c["shape"]);
+        *env.hdr.borrow_mut() = Hdr { descr: c["descr"].as_str().map(|x| x.to_string()), time: c["time"].as_u64() };
+        if c["kind"] == "c06-history" {
+            replay_history(&mut sink, &env, c);
+            sink.finish();
+            return;
+        }
         let m = matrix.map(|m| String::from_utf8_lossy(&m).to_string());
         run_texts(&mut sink, &env, None, m.clone(), String::from_utf8_lossy(&lexicon).to_string(), "replay", true);
         if c["shape"] == "fault_enumeration" {
@@ -1156,7 +1766,56 @@ pub fn run(args: &Args) {
         }
         fix_concat_flags(&mut recs, user);
         let case = Case { base: if user { Base::User } else { Base::System(lines) }, recs };
+        if it % 3 == 1 {
+            *env.hdr.borrow_mut() = gen_hdr(&mut rng);
+            sink.tag("with_header_settings");
+        }
         emit(&mut sink, &env, &mut rng, &case, &shape);
+        *env.hdr.borrow_mut() = Hdr::default();
+    }
+    // ---- call histories on one builder
+    {
+        let m = |nl: i64, nr: i64| good_matrix(nl, nr, &mut Rng::new(9));
+        let mut r9 = Rng::new(9);
+        let big = {
+            let mut c = chunk(0, 2, 5, 5, &mut r9);
+            c[0].left = Num::Lit(4);
+            c[0].right = Num::Lit(4);
+            c
+        };
+        let small_ok = chunk(1, 2, 2, 2, &mut r9);
+        let dangling = {
+            let mut c = chunk(2, 1, 2, 2, &mut r9);
+            c[0].wstruct = vec![Wid::Lit(false, 40)];
+            c
+        };
+        let mut fail_line = m(2, 2);
+        fail_line.push(vec![Tok::Bad("x".into()), Tok::Num(0), Tok::Num(1)]);
+        let directed: Vec<(&str, Vec<HOp>)> = vec![
+            ("directed_usual_order", vec![conn_op(m(5, 5), &mut r9), lex_op(big.clone()), HOp::Resolve, HOp::Compile]),
+            ("directed_rows_after_resolve", vec![conn_op(m(2, 2), &mut r9), lex_op(small_ok.clone()), HOp::Resolve, lex_op(big.clone()), HOp::Compile]),
+            ("directed_dangling_reference_after_resolve", vec![conn_op(m(2, 2), &mut r9), lex_op(small_ok.clone()), HOp::Resolve, lex_op(dangling.clone()), HOp::Compile]),
+            ("directed_matrix_after_resolve", vec![lex_op(big.clone()), HOp::Resolve, conn_op(m(2, 2), &mut r9), HOp::Compile]),
+            ("directed_smaller_matrix_after_resolve", vec![conn_op(m(5, 5), &mut r9), lex_op(big.clone()), HOp::Resolve, HOp::Compile, conn_op(m(2, 2), &mut r9), HOp::Compile]),
+            ("directed_matrix_fails_at_a_line", vec![conn_op(m(5, 5), &mut r9), lex_op(big.clone()), conn_op(fail_line.clone(), &mut r9), HOp::Compile]),
+            ("directed_compile_resolve_compile", vec![conn_op(m(5, 5), &mut r9), lex_op(big.clone()), HOp::Compile, HOp::Resolve, HOp::Compile, lex_op(small_ok.clone()), HOp::Compile]),
+            ("directed_no_matrix", vec![lex_op(small_ok.clone()), HOp::Compile]),
+        ];
+        for (shape, ops) in &directed {
+            emit_history(&mut sink, &env, false, ops, shape, false);
+        }
+    }
+    for i in 0..args.n(260, 4000) {
+        let user = i % 4 == 3;
+        let (ops, shape) = gen_history(&mut rng, user);
+        if i % 5 == 0 {
+            *env.hdr.borrow_mut() = gen_hdr(&mut rng);
+        }
+        emit_history(&mut sink, &env, user, &ops, &shape, false);
+        *env.hdr.borrow_mut() = Hdr::default();
+    }
+    for _ in 0..args.n(200, 4000) {
+        rust_only_history(&mut sink, &env, &mut rng);
     }
     // ---- fault enumeration
     let ninputs = args.n(6, 40);
@@ -1165,7 +1824,11 @@ pub fn run(args: &Args) {
         let (nl, nr) = if user { (SYS_NL, SYS_NR) } else { (rng.range(1, 3), rng.range(1, 3)) };
         let recs = good_recs(1 + rng.below(4) as usize, nl, nr, user, &mut rng);
         let case = Case { base: if user { Base::User } else { Base::System(good_matrix(nl, nr, &mut rng)) }, recs };
+        if i % 3 == 1 {
+            *env.hdr.borrow_mut() = Hdr { descr: Some("辞".repeat(85)), time: Some(1234567) };
+        }
         fault_enumeration(&mut sink, &env, &mut rng, &case, 1);
+        *env.hdr.borrow_mut() = Hdr::default();
     }
     // ---- malformed stream (implementation only)
     for _ in 0..args.n(400, 8000) {
